@@ -253,7 +253,10 @@ pub fn run(rep: &mut Report, thorough: bool) {
                 let mut m = bases[bi].bytes.clone();
                 m[p] = (v >> 8) as u8;
                 m[p + 1] = v as u8;
-                let name = bases[bi].name;
+                // (a mutated version-2 DUMP may be a version-3 one: its entries are then shaped
+                // differently, so the body is left to the reference decoder, which reads the
+                // mutated request, and only the header is compared literally)
+                let name = if bases[bi].name.contains("dump2") { "rpc-udp-mutated" } else { bases[bi].name };
                 let a = canon_checked(name, &m, it.outs[0].reply.as_deref(), &ctx_of(&f4, false));
                 let b = canon_checked(name, &m, it.outs[1].reply.as_deref(), &ctx_of(&f6, false));
                 if !same(&a, &b) {
@@ -280,7 +283,8 @@ pub fn run(rep: &mut Report, thorough: bool) {
         let names = ["http-get", "stun-classic-change-port", "rpc-udp-getaddr", "dns-a", "ssh-2"];
         let bases: Vec<&Payload> = udp_sel.iter().filter(|p| names.contains(&p.name)).cloned().collect();
         let labels: Vec<u32> = crate::deviate::EDGE16.iter().cloned().chain([0x10000u32, 0xfffff]).collect();
-        let nf = 256 + 256 + labels.len() as u64;
+        let v4flags: [u16; 4] = [0x0000, 0x4000, 0x8000, 0xc000];
+        let nf = 256 + 256 + labels.len() as u64 + v4flags.len() as u64;
         let total = bases.len() as u64 * nf;
         let f4 = flow4(40000, 80);
         let f6 = flow6(40000, 80);
@@ -298,6 +302,13 @@ pub fn run(rep: &mut Report, thorough: bool) {
                 a[22] = (k - 256) as u8;
                 b[21] = (k - 256) as u8;
                 what = format!("TTL / hop limit {}", k - 256);
+            } else if k >= 512 + labels.len() as u64 {
+                // the IPv4 flag bits that do not say "fragment" (DF, the reserved bit, both): IPv6
+                // has no such field, the datagram is whole either way
+                let fl = v4flags[(k - 512 - labels.len() as u64) as usize];
+                a[20] = (fl >> 8) as u8;
+                a[21] = fl as u8;
+                what = format!("IPv4 flags word {:#06x}", fl);
             } else {
                 let l = labels[(k - 512) as usize];
                 a[18] = (l >> 8) as u8;
@@ -341,7 +352,7 @@ pub fn run(rep: &mut Report, thorough: bool) {
             },
             &mut rep.sink,
         );
-        rep.stage("version-differential-envelope", "5 payloads x {TOS = traffic class: 256 values, TTL = hop limit: 256 values, IPv4 id / IPv6 flow label: 24 values}, the same marking on both IP versions: same canonical answer", total, t0);
+        rep.stage("version-differential-envelope", "5 payloads x {TOS = traffic class: 256 values, TTL = hop limit: 256 values, IPv4 id / IPv6 flow label: 24 values, IPv4 DF / reserved flag bits: 4 values}, the same marking on both IP versions: same canonical answer", total, t0);
     }
     // the IPv4 header's own length: the same payload behind IPv4 options (IHL 6..15: NOP padding, a
     // timestamp option, a router-alert option) as datagram and as first data segment: the answer
